@@ -145,6 +145,9 @@ func linOfX(v ssa.Value, sym symNamer, phiRes func(*ssa.Phi) ssa.Value, ov func(
 				return linConst(c)
 			}
 		}
+		if o := origin(v); o != v {
+			return rec(o, d+1)
+		}
 		if s, ok := sym(v); ok {
 			return linSym(s)
 		}
